@@ -223,3 +223,13 @@ Theorem C04_is_xfail_agrees :
   forall marks : list Xfail.mark, Xfail.is_xfail marks = Xfail.pytest_xfail marks.
 Proof. exact XfailProofs.is_xfail_agrees. Qed.
 Print Assumptions C04_is_xfail_agrees.
+
+(* review mode and `in` snapshots whose previous value is no list display (Model/CollReplace.v): every change is computed with all update flags switched on, so the change of
+   category fix holds exactly the tested values - approving fix alone drops a member that was never tested.  The statement "with approved set F the outcome equals applying
+   exactly the pending changes whose category is in F" is refuted for this input (known finding F-89) *)
+From V Require Model.CollReplace Proofs.CollReplaceProofs.
+Theorem C04_review_fix_alone_drops_untested_refuted :
+  exists (old tested nv : list Z) (o : Z),
+    CollReplace.coll_replace false true false old tested = CollReplace.Repl true nv /\ In o old /\ ~ In o nv.
+Proof. exact CollReplaceProofs.review_fix_alone_drops_untested. Qed.
+Print Assumptions C04_review_fix_alone_drops_untested_refuted.
